@@ -249,10 +249,11 @@ def permutation(draw, seq):
 
 def pick(pool, n):
     """n distinct entries of pool in drawn order (n is clipped to the pool size)."""
+    pool = list(dict.fromkeys(pool))       # a buggy tree may hand us duplicate IDs
     n = min(n, len(pool))
     if n == 0:
         return st.just([])
-    return st.lists(st.sampled_from(list(pool)), unique=True, min_size=n, max_size=n)
+    return st.lists(st.sampled_from(pool), unique=True, min_size=n, max_size=n)
 
 
 # schema values that are prefixes / case variants of each other
